@@ -84,39 +84,39 @@ Proof.
   intros fuel slen st0 b v s1 r Hv Hb Hfol L Hf Hs.
   inversion Hv; subst.
   - (* null *)
-    exists 110, (lit_ull ++ s1), st0, s1. cbn [lit_null app] in *. unfold fsm_value. ev.
+    exists 110, (lit_ull ++ s1), st0, s1. cbn [lit_null app] in *. unfold fsm_value, fsm_value_g. ev.
     rewrite advance_dword_complete by (cbn [length] in Hs; lia). cbn [bind]. repeat split; auto.
-  - exists 116, (lit_rue ++ s1), st0, s1. cbn [lit_true app] in *. unfold fsm_value. ev.
+  - exists 116, (lit_rue ++ s1), st0, s1. cbn [lit_true app] in *. unfold fsm_value, fsm_value_g. ev.
     rewrite advance_dword_complete by (cbn [length] in Hs; lia). cbn [bind]. repeat split; auto.
-  - exists 102, (lit_alse ++ s1), st0, s1. cbn [lit_false app] in *. unfold fsm_value. ev.
+  - exists 102, (lit_alse ++ s1), st0, s1. cbn [lit_false app] in *. unfold fsm_value, fsm_value_g. ev.
     rewrite advance_dword_complete by (cbn [length] in Hs; lia). cbn [bind]. repeat split; auto.
   - (* number *)
     assert (Hnf := Hfol H).
     destruct H as [Hu|[m [-> Hu]]].
     + destruct (sunsigned_head _ Hu) as [c [n' [-> Hc]]].
       destruct (digit_facts c Hc) as (F1 & F2 & F3 & F4 & F5).
-      exists c, (n' ++ s1), st0, s1. unfold fsm_value. rewrite Hc.
+      exists c, (n' ++ s1), st0, s1. unfold fsm_value, fsm_value_g. rewrite Hc.
       unfold skip_positive_1. change (c :: n' ++ s1) with ((c :: n') ++ s1).
       rewrite num_complete by auto. cbn [bind]. repeat split; auto.
     + destruct (sunsigned_head _ Hu) as [c [n' [-> Hc]]].
-      exists 45, ((c :: n') ++ s1), st0, s1. unfold fsm_value. ev.
+      exists 45, ((c :: n') ++ s1), st0, s1. unfold fsm_value, fsm_value_g. ev.
       unfold skip_negative_1. cbn [app]. rewrite Hc. cbn [negb].
       change (c :: n' ++ s1) with ((c :: n') ++ s1).
       rewrite num_complete by auto. cbn [bind]. repeat split; auto.
   - (* string *)
-    exists 34, (b0 ++ 34 :: s1), st0, s1. unfold fsm_value. ev.
+    exists 34, (b0 ++ 34 :: s1), st0, s1. unfold fsm_value, fsm_value_g. ev.
     rewrite skip_string_complete; auto.
     + cbn [bind]. repeat split; auto. cbn [app]. rewrite <- app_assoc. reflexivity.
     + cbn [app length] in Hf. rewrite <- app_assoc in Hf. cbn [app] in Hf. lia.
   - (* [] *)
-    exists 91, (w ++ 93 :: s1), (FSM_ARR_0 :: st0), (w ++ 93 :: s1). unfold fsm_value. ev.
+    exists 91, (w ++ 93 :: s1), (FSM_ARR_0 :: st0), (w ++ 93 :: s1). unfold fsm_value, fsm_value_g. ev.
     rewrite fsm_push_ok by lia. cbn [bind]. repeat split; auto.
     + cbn [app]. rewrite <- app_assoc. reflexivity.
     + cbn [lang]. exists (w ++ [93]), s1. rewrite <- app_assoc. split; [reflexivity|]. split; [|auto].
       cbn [frame]. left. eauto.
     + cbn [length]. lia.
   - (* [v ...] *)
-    exists 91, (w ++ v0 ++ t ++ s1), (FSM_ARR_0 :: st0), (w ++ v0 ++ t ++ s1). unfold fsm_value. ev.
+    exists 91, (w ++ v0 ++ t ++ s1), (FSM_ARR_0 :: st0), (w ++ v0 ++ t ++ s1). unfold fsm_value, fsm_value_g. ev.
     rewrite fsm_push_ok by lia. cbn [bind]. repeat split; auto.
     + cbn [app]. rewrite <- !app_assoc. reflexivity.
     + cbn [lang]. exists (w ++ v0 ++ t), s1. rewrite <- !app_assoc. split; [reflexivity|]. split; [|auto].
@@ -125,7 +125,7 @@ Proof.
       * eapply (proj1 (proj2 sval_mono_all)); eauto. lia.
     + cbn [length]. lia.
   - (* {} *)
-    exists 123, (w ++ 125 :: s1), (FSM_OBJ_0 :: st0), (w ++ 125 :: s1). unfold fsm_value. ev.
+    exists 123, (w ++ 125 :: s1), (FSM_OBJ_0 :: st0), (w ++ 125 :: s1). unfold fsm_value, fsm_value_g. ev.
     rewrite fsm_push_ok by lia. cbn [bind]. repeat split; auto.
     + cbn [app]. rewrite <- app_assoc. reflexivity.
     + cbn [lang]. exists (w ++ [125]), s1. rewrite <- app_assoc. split; [reflexivity|]. split; [|auto].
@@ -133,7 +133,7 @@ Proof.
     + cbn [length]. lia.
   - (* {"k":v ...} *)
     exists 123, (w ++ 34 :: b0 ++ 34 :: w1 ++ 58 :: w2 ++ v0 ++ t ++ s1), (FSM_OBJ_0 :: st0),
-           (w ++ 34 :: b0 ++ 34 :: w1 ++ 58 :: w2 ++ v0 ++ t ++ s1). unfold fsm_value. ev.
+           (w ++ 34 :: b0 ++ 34 :: w1 ++ 58 :: w2 ++ v0 ++ t ++ s1). unfold fsm_value, fsm_value_g. ev.
     rewrite fsm_push_ok by lia. cbn [bind]. repeat split; auto.
     + cbn [app]. repeat (rewrite <- !app_assoc; cbn [app]). reflexivity.
     + cbn [lang]. exists (w ++ 34 :: b0 ++ 34 :: w1 ++ 58 :: w2 ++ v0 ++ t), s1.
@@ -172,12 +172,12 @@ Proof.
     rewrite <- app_assoc in *.
     destruct (VAL st w v s1 Hw ltac:(subst b; auto) (Hfo eq_refl) L ltac:(lia) Hf Hs)
       as (c & rest & st' & s' & EA & F2 & F3 & FV & L' & HL).
-    exists st', s'. unfold fsm_step. rewrite EA, F2. auto.
+    exists st', s'. unfold fsm_step, fsm_step_g; fold fsm_value. rewrite EA, F2. auto.
   - (* ARR *)
     inversion Fr; subst.
-    + exists st, s1. unfold fsm_step. rewrite <- app_assoc. cbn [app]. rewrite advance_ns_app by auto. ev.
+    + exists st, s1. unfold fsm_step, fsm_step_g; fold fsm_value. rewrite <- app_assoc. cbn [app]. rewrite advance_ns_app by auto. ev.
       repeat split; auto. lia.
-    + exists (FSM_VAL :: FSM_ARR :: st), (w' ++ v ++ t ++ s1). unfold fsm_step.
+    + exists (FSM_VAL :: FSM_ARR :: st), (w' ++ v ++ t ++ s1). unfold fsm_step, fsm_step_g; fold fsm_value.
       repeat (rewrite <- !app_assoc; cbn [app]). rewrite advance_ns_app by auto. ev.
       rewrite fsm_push_ok by (cbn [length]; lia). cbn [bind]. split; [reflexivity|]. split; [|cbn [length]; lia].
       cbn [lang]. exists (w' ++ v), (t ++ s1). rewrite <- app_assoc. split; [reflexivity|]. split.
@@ -187,9 +187,9 @@ Proof.
       * exists t, s1. split; [reflexivity|]. split; [|auto]. cbn [frame]. rewrite <- H. auto.
   - (* OBJ *)
     inversion Fr; subst.
-    + exists st, s1. unfold fsm_step. rewrite <- app_assoc. cbn [app]. rewrite advance_ns_app by auto. ev.
+    + exists st, s1. unfold fsm_step, fsm_step_g; fold fsm_value. rewrite <- app_assoc. cbn [app]. rewrite advance_ns_app by auto. ev.
       repeat split; auto. lia.
-    + exists (FSM_KEY :: FSM_OBJ :: st), (w0 ++ 34 :: b0 ++ 34 :: w1 ++ 58 :: w2 ++ v ++ t ++ s1). unfold fsm_step.
+    + exists (FSM_KEY :: FSM_OBJ :: st), (w0 ++ 34 :: b0 ++ 34 :: w1 ++ 58 :: w2 ++ v ++ t ++ s1). unfold fsm_step, fsm_step_g; fold fsm_value.
       repeat (rewrite <- !app_assoc; cbn [app]). rewrite advance_ns_app by auto. ev.
       rewrite fsm_push_ok by (cbn [length]; lia). cbn [bind]. split; [reflexivity|]. split; [|cbn [length]; lia].
       cbn [lang]. exists (w0 ++ 34 :: b0 ++ 34 :: w1 ++ 58 :: w2 ++ v), (t ++ s1).
@@ -201,7 +201,7 @@ Proof.
       * exists t, s1. split; [reflexivity|]. split; [|auto]. cbn [frame]. rewrite <- H. auto.
   - (* KEY *)
     destruct Fr as (w & bd & w1 & y & -> & Hw & Hbd & Hw1 & Fv).
-    exists (FSM_ELEM :: st), (w1 ++ 58 :: y ++ s1). unfold fsm_step.
+    exists (FSM_ELEM :: st), (w1 ++ 58 :: y ++ s1). unfold fsm_step, fsm_step_g; fold fsm_value.
     repeat (rewrite <- !app_assoc; cbn [app]). rewrite advance_ns_app by auto. ev.
     rewrite skip_string_complete; auto.
     + cbn [bind]. split; [reflexivity|]. split; [|cbn [length]; lia].
@@ -210,13 +210,13 @@ Proof.
     + repeat (rewrite <- !app_assoc in Hf; cbn [app] in Hf). rewrite app_length in Hf. cbn [length] in Hf. lia.
   - (* ELEM *)
     destruct Fr as (w & y & -> & Hw & Fv).
-    exists (FSM_VAL :: st), (y ++ s1). unfold fsm_step.
+    exists (FSM_VAL :: st), (y ++ s1). unfold fsm_step, fsm_step_g; fold fsm_value.
     repeat (rewrite <- !app_assoc; cbn [app]). rewrite advance_ns_app by auto. ev.
     split; [reflexivity|]. split; [|cbn [length]; lia].
     cbn [lang]. exists y, s1. split; [reflexivity|]. split; [|auto]. cbn [frame]. rewrite <- Hb. auto.
   - (* ARR_0 *)
     destruct Fr as [(w & -> & Hw)|(w & v & t0 & -> & Hw & Hv & Ht)].
-    + exists st, s1. unfold fsm_step. rewrite <- app_assoc. cbn [app]. rewrite advance_ns_app by auto. ev.
+    + exists st, s1. unfold fsm_step, fsm_step_g; fold fsm_value. rewrite <- app_assoc. cbn [app]. rewrite advance_ns_app by auto. ev.
       repeat split; auto. lia.
     + assert (Hb1 : (1 <= b)%nat). { inversion Ht; subst; lia. }
       rewrite <- !app_assoc in *.
@@ -225,12 +225,12 @@ Proof.
       destruct (VAL (FSM_ARR :: st) w v (t0 ++ s1) Hw) as (c & rest & st' & s' & EA & F2 & F3 & FV & L' & HL); auto.
       * cbn [length]. replace (MAX_RECURSE - S (length st))%nat with (b - 1)%nat by lia. auto.
       * intros _. eapply atail_hd; eauto.
-      * exists st', s'. unfold fsm_step. rewrite EA, F2, F3. auto.
+      * exists st', s'. unfold fsm_step, fsm_step_g; fold fsm_value. rewrite EA, F2, F3. auto.
   - (* OBJ_0 *)
     destruct Fr as [(w & -> & Hw)|(w & bd & w1 & w2 & v & t0 & -> & H2b & Hw & Hbd & Hw1 & Hw2 & Hv & Ht)].
-    + exists st, s1. unfold fsm_step. rewrite <- app_assoc. cbn [app]. rewrite advance_ns_app by auto. ev.
+    + exists st, s1. unfold fsm_step, fsm_step_g; fold fsm_value. rewrite <- app_assoc. cbn [app]. rewrite advance_ns_app by auto. ev.
       repeat split; auto. lia.
-    + exists (FSM_ELEM :: FSM_OBJ :: st), (w1 ++ 58 :: w2 ++ v ++ t0 ++ s1). unfold fsm_step.
+    + exists (FSM_ELEM :: FSM_OBJ :: st), (w1 ++ 58 :: w2 ++ v ++ t0 ++ s1). unfold fsm_step, fsm_step_g; fold fsm_value.
       repeat (rewrite <- !app_assoc; cbn [app]). rewrite advance_ns_app by auto. ev.
       rewrite skip_string_complete; auto.
       * cbn [bind]. rewrite fsm_push_ok by (cbn [length]; lia). cbn [bind].
@@ -251,7 +251,7 @@ Theorem fsm_exec_complete : forall fuel slen st s r,
   fsm_exec_1 fuel slen st s = Some (Ok r).
 Proof.
   induction fuel as [|f IH]; intros slen st s r L Hst Hf Hs; [lia|].
-  destruct st as [|t st]; cbn [fsm_exec_1].
+  destruct st as [|t st]; exec_unfold.
   - cbn [lang] in L. subst. reflexivity.
   - destruct (step_complete (S f) slen t st s r L Hst ltac:(lia) Hs) as (st' & s' & ES & L' & Hst').
     rewrite ES.
